@@ -77,7 +77,21 @@ Definition run_C16 (i : term) : term :=
   TL [TS (status_str (g_status o)); of_otprof (g_src o); of_otprof (g_base o); of_bool (g_save o);
       of_ss (g_err_src o); of_ss (g_err_base o); of_ss (g_tail o); TL []].
 
-Definition eqv_C16 := eqv_exact.
+(* model vs implementation: status, save flag, error lines, tail messages and repeated-fetch list
+   exactly; the two profiles up to toy_eqv (sample type, contributor order, weight per key) -- the
+   ORDER of samples inside the merged profile is not compared (it depends on the chunk size when a
+   key's partial sum cancels to zero, and no report shows it).  When combineProfiles fails (status
+   err-src / err-base: outside the C16 statement) only the status is compared: how many error lines
+   were printed before the early exit depends on the chunk the failure happens in. *)
+Definition eqv_C16 (i m o : term) : bool :=
+  match m, o with
+  | TL [TS st; ps; pb; sv; es; eb; tl; mu], TL [TS st'; ps'; pb'; sv'; es'; eb'; tl'; mu'] =>
+      String.eqb st st' &&
+      (if String.eqb st "err-src" || String.eqb st "err-base" then true
+       else toy_opt_eqvb (otprof_of ps) (otprof_of ps') && toy_opt_eqvb (otprof_of pb) (otprof_of pb')
+            && term_eqb sv sv' && term_eqb es es' && term_eqb eb eb' && term_eqb tl tl' && term_eqb mu mu')
+  | _, _ => term_eqb m o
+  end.
 
 Definition spec_C16 (i o : term) : bool :=
   let srcs := sources_of 0 0 (gl (gn i 0)) in
